@@ -27,7 +27,7 @@ import json, os
 from harness import tlc, graph, tlaval
 from harness.tlaval import seq
 from harness.regkit import Walker, env_labels, fast_dump
-from harness.trustkit import Scenario, KeyPool, FAST, world_keys
+from harness.trustkit import Scenario, KeyPool, FAST, world_keys, alg_map
 
 ENV = {'NewValidator', 'Validate', 'FetchReply', 'Heal'}
 INTERNAL = ['CheckSchema', 'UseAnchor', 'UseCache', 'Fetch', 'VerifySig', 'Verdict']
@@ -678,6 +678,8 @@ def replay(ctx, path):
             run_.close()
         return 0
     if obj.get('kind') == 'trace':
+        if not obj['rec']['world'].get('alg'):
+            obj['rec']['world']['alg'] = alg_map(obj['rec']['world'])       # recorded before keys had algorithms of their own
         rej = judge(ctx, [obj['rec']], 'replay', ([], ALL_DEVS))
         for v in ctx.violations:
             print(v['sig'], '-', v['what'][:400])
